@@ -340,3 +340,62 @@ impl FileStateTracker {
         Some((locked, checkpointed, total, fully))
     }
 }
+
+// Read-only accessors for the verification digest (compiled only with `--cfg walrus_verif`).
+#[cfg(walrus_verif)]
+impl BlockAllocator {
+    /// (next block id, file path, offset in file)
+    pub(super) fn verif_state(&self) -> (u64, String, u64) {
+        self.lock();
+        let data = unsafe { &*self.next_block.get() };
+        let ret = (data.id, data.file_path.clone(), data.offset);
+        self.unlock();
+        ret
+    }
+}
+
+#[cfg(walrus_verif)]
+impl BlockStateTracker {
+    /// (block id, file path, is_checkpointed), sorted by block id
+    pub(super) fn verif_dump() -> Vec<(usize, String, bool)> {
+        let mut v: Vec<(usize, String, bool)> = match Self::map().read() {
+            Ok(r) => r
+                .iter()
+                .map(|(id, b)| {
+                    (
+                        *id,
+                        b.file_path.clone(),
+                        b.is_checkpointed.load(Ordering::Acquire),
+                    )
+                })
+                .collect(),
+            Err(_) => Vec::new(),
+        };
+        v.sort();
+        v
+    }
+}
+
+#[cfg(walrus_verif)]
+impl FileStateTracker {
+    /// (file path, locked, checkpointed, total, fully_allocated), sorted by path
+    pub(super) fn verif_dump() -> Vec<(String, u16, u16, u16, bool)> {
+        let mut v: Vec<(String, u16, u16, u16, bool)> = match Self::map().read() {
+            Ok(r) => r
+                .iter()
+                .map(|(p, st)| {
+                    (
+                        p.clone(),
+                        st.locked_block_ctr.load(Ordering::Acquire),
+                        st.checkpoint_block_ctr.load(Ordering::Acquire),
+                        st.total_blocks.load(Ordering::Acquire),
+                        st.is_fully_allocated.load(Ordering::Acquire),
+                    )
+                })
+                .collect(),
+            Err(_) => Vec::new(),
+        };
+        v.sort();
+        v
+    }
+}
